@@ -96,6 +96,26 @@ class Out:
         n = self.counters.get(group, 0)
         self.counters[group] = n + 1
         sid = f"{group}-{n:05d}"
+        # every object that was handed to a call as an ARGUMENT is dumped once more at the end of the script:
+        # the wrapped Rust functions only read their arguments, so the Python layer must not write into them
+        used = {}
+
+        def refs(v):
+            if isinstance(v, dict):
+                if "ref" in v:
+                    yield v["ref"]
+                for x in v.get("tuple", []):
+                    yield from refs(x)
+            elif isinstance(v, list):
+                for x in v:
+                    yield from refs(x)
+
+        for st in steps:
+            if st.get("op") in ("new", "static", "func", "call"):
+                for r in list(refs(st.get("args", []))) + list(refs(list(st.get("kwargs", {}).values()))):
+                    used[r] = st.get("api", st.get("op"))
+        steps = list(steps) + [{"op": "dump", "on": r, "api": f"{api}:argument-afterwards"} for r, api in used.items()
+                               if not r.startswith("rq")]
         s = {"id": sid, "group": group, "steps": steps}
         s.update({k: v for k, v in meta.items() if v is not None})
         self.scripts.append(s)
